@@ -9,12 +9,13 @@ class V:
 class Int(V):
     """integer of width w in unsigned bit-pattern view; a = affine form (value in [0,2^w));
     pred = optional predicate this 0/1 value is the truth of"""
-    __slots__ = ('w', 'a', 'pred')
+    __slots__ = ('w', 'a', 'pred', 'sl')
 
-    def __init__(self, w, a, pred=None):
+    def __init__(self, w, a, pred=None, sl=None):
         self.w = w
         self.a = a
         self.pred = pred
+        self.sl = sl          # optional byte-slot vector (little end first), see absint.Ops.slots
 
     def key(self):
         return ('i', self.w, self.a.key())
